@@ -91,6 +91,9 @@ func prelude(t *rapid.T, w *world.World, n int) {
 			spec.Shaping = w.GenShaping(t, false)
 			spec.Shaping.Allow, spec.Shaping.Deny, spec.Shaping.MinStake = nil, nil, 0
 		}
+		if rapid.Bool().Draw(t, "pinfra") {
+			spec.Infraction = genInfraction(t) // the consumer's own slashing/jailing parameters differ from the provider's
+		}
 		w.Agenda = append(w.Agenda, world.Action{Kind: world.KCreateConsumer, Sender: owners[c%len(owners)], Spec: spec})
 	}
 	w.Agenda = append(w.Agenda, world.Action{Kind: world.KBlock, Dt: 2e9})
